@@ -66,6 +66,8 @@ def args_of(cfg, out="a.h5", extra=()):
     if cfg.get("rfmod"):
         a += ["--RFPhaseModAmplitude", repr(cfg["rfmod"][0]), "--RFPhaseModFrequency", repr(cfg["rfmod"][1]),
               "--LinearRF", str(cfg["rfmod"][2])]
+    if cfg.get("zoom"):
+        a += ["--InitialDistZoom", repr(cfg["zoom"])]
     if out:
         a += ["-o", out]
     return a + list(extra)
